@@ -358,10 +358,67 @@ def r5(ctx):
         raise AnchorError("keep-alive sentinel tests: %d" % k)
 
 
+def r6(ctx):
+    """Two binding-layer mechanisms that carry per-item data: (a) the dead-band request builder stores (value, index) pairs and the
+    native headers take (index, value): every arm of WriteDeadBandRequest::build goes through the same transposing adaptor and the
+    namesake native constructor (for the one variant where both halves are u16 a plain clone type-checks and swaps them);
+    (b) an iterator that hands out a sub-iterator per item through `Option::get_or_insert` empties the slot first - get_or_insert
+    keeps what is already there, so every item after the first would be handed the drained iterator of the first."""
+    ffi = ctx.ffi
+    bb = ffi.body("write_dead_band_request::WriteDeadBandRequest::build")
+    gi = ctx.gi(bb)
+    arms = [g for g in gi.all_guards() if g.kind == "is" and (g.enum or "").endswith("write_dead_band_request::Header")]
+    if len(arms) < 6:
+        raise AnchorError("WriteDeadBandRequest::build: %d arms" % len(arms))
+    shapes = {}
+    for g in arms:
+        reg = region_of(bb, g)
+        calls = [short(c) for _, _, c in calls_in_blocks(ctx.program("dnp3_ffi"), bb, reg, r".", follow_closures=False)]
+        ctor = [c for c in calls if c.startswith("DeadBandHeader::group34")]
+        rest = sorted(c for c in calls if not c.startswith("DeadBandHeader::group34") and not c.endswith("::push"))
+        shapes[g.name] = (ctor, tuple(rest))
+        want = "group34_var%s_u%s" % tuple(re.match(r"G34V(\d)U(\d+)$", g.name).groups())
+        ctx.check(len(ctor) == 1 and ctor[0].endswith(want), "deadband:%s:ctor" % g.name, "%s -> %s" % (g.name, ctor), bb.where(g.edge[1]), bad_detail="Header::%s is built with %s, expected DeadBandHeader::%s" % (g.name, ctor, want))
+    common = {}
+    for v, (c, r_) in shapes.items():
+        common.setdefault(r_, []).append(v)
+    major = max(common.values(), key=len)
+    for v, (c, r_) in shapes.items():
+        ctx.check(v in major, "deadband:%s:adaptor" % v, "%s converts its pairs like its siblings (%s)" % (v, list(r_)[:4]), bb.where(line=bb.line), bad_detail="Header::%s converts its items with %s while its %d siblings use %s: (dead band, index) pairs are handed over untransposed" % (v, list(r_)[:5], len(major), [k for k, vs in common.items() if vs is major][0][:5]))
+    # (b)
+    n = 0
+    for bd in ffi.bodies.values():
+        if not hand_written(bd):
+            continue
+        sym = None
+        for c in call_sites(bd, r"Option<.*>::get_or_insert(_with)?$|Option::get_or_insert(_with)?$"):
+            sym = sym or ctx.sym(bd)
+            recv = c.term.args[0]
+            if recv.is_const():
+                continue
+            # the field the slot lives in
+            fe = sym.operand_expr(recv)
+            fld = fe[2] if fe[0] == "field" else None
+            if fld is None:
+                continue
+            n += 1
+            clears = []
+            for b, si, st in bd.assigns():
+                if st.dest.proj and st.dest.proj[-1] == "." + fld:
+                    ve = sym.rvalue_expr(st.rv)
+                    if ve[0] == "agg" and ve[2] == "None":
+                        clears.append(b.idx)
+            ok = any(bd.block_dominates(x, c.idx) for x in clears)
+            ctx.check(ok, "get_or_insert-after-clear@%s:%s" % (short(bd.path), fld), "`%s` is emptied before get_or_insert" % fld, bd.where(c.idx), bad_detail="%s calls get_or_insert on `%s` without emptying it first: from the second item on the stale value is handed out" % (short(bd.path), fld))
+    if n < 1:
+        raise AnchorError("get_or_insert sites in the binding layer: %d" % n)
+
+
 RULES = [
     ("C20.R1", "T4-namesake", "every cross-boundary enum arm constructs the namesake variant; both directions compose to identity", r1),
     ("C20.R2", "T8-namesake", "struct fields and constructor arguments are filled from their own namesake", r2),
     ("C20.R3", "T8-forwarders", "database forwarders resolve to the namesake native operation with the same arguments", r3),
     ("C20.R4", "T8-payload", "variant payloads are carried across the boundary: no sibling-deviant drop, named fields reach their namesakes", r4),
     ("C20.R5", "T5-zero/T2", "Durations cross the boundary whole: no truncating accessor; zero sentinels compare the whole value", r5),
+    ("C20.R6", "T-sibling/T2", "dead-band request arms agree on their adaptor and namesake constructor; per-item slots are emptied before get_or_insert", r6),
 ]
